@@ -105,7 +105,14 @@ Record renv := {
   e_osenv : list (bytes * bytes);
   e_defaults : list (bytes * bytes);            (* values of the default vocabulary for this request *)
   e_host : bytes;
-  e_empty : bytes }.
+  e_empty : bytes;
+  (* the components of the request the functionally modelled placeholders are computed from *)
+  e_method : bytes;
+  e_path : bytes;                               (* path of the original URL (OriginalURLCtxKey) *)
+  e_curpath : bytes;                            (* r.URL.Path as inner middleware left it *)
+  e_rawquery : bytes;
+  e_proto : bytes;
+  e_rec : option (Z * N) }.                     (* the recorder's status and size; None = no recorder *)
 
 (* strconv.Atoi *)
 Definition is_digit (c : N) : bool := (48 <=? c) && (c <=? 57).
@@ -142,17 +149,109 @@ Definition EQS : N := 61.
 Definition osenv_get (e : renv) (name : bytes) : bytes :=
   match assoc name (e_osenv e) with Some v => v | None => [] end.
 
-(* [vocab] = the case labels of getSubstitution's switch (Gen_C20.gen_c20_vocab) *)
-Definition get_subst_chk (vocab : list bytes) (e : renv) (key : bytes) : res bytes :=
+Local Open Scope string_scope.
+Definition lit_HEAD : bytes := Eval vm_compute in bs "HEAD".
+(* strconv.Itoa *)
+Fixpoint digits_of (fuel : nat) (n : N) (acc : bytes) : bytes :=
+  match fuel with
+  | O => acc
+  | S f => let acc' := (48 + n mod 10) :: acc in if n <? 10 then acc' else digits_of f (n / 10) acc'
+  end.
+Definition itoa_N (n : N) : bytes := digits_of (S (N.to_nat (N.log2 n))) n [].
+Definition itoa_Z (z : Z) : bytes :=
+  if (z <? 0)%Z then 45 :: itoa_N (Z.to_N (- z)) else itoa_N (Z.to_N z).
+
+(* path.Split: the file is what follows the last slash *)
+Fixpoint take_until_slash (s : bytes) : bytes :=
+  match s with [] => [] | c :: r => if c =? 47 then [] else c :: take_until_slash r end.
+Definition path_file (p : bytes) : bytes := rev (take_until_slash (rev p)).
+Definition path_dir (p : bytes) : bytes := firstn (length p - length (path_file p)) p.
+
+(* the default vocabulary: the model's dispatch table.  [Fn f]: the value is COMPUTED by the model
+   from the request components in [renv]; [Oracle]: the model only knows that the label exists,
+   its value for the request is handed in (e_defaults) — computed by the harness with the Go
+   standard library (os.Hostname, net.SplitHostPort, url.QueryEscape, URL.RequestURI) or, for the
+   time- and dump-valued ones, not judged at all.  The model has no TLS and no requestid / MITM
+   detection in front of it. *)
+Inductive how := Fn (f : renv -> bytes) | Oracle.
+Definition f_status (e : renv) : bytes :=
+  match e_rec e with None => e_empty e | Some (st, _) => itoa_Z st end.
+Definition f_size (e : renv) : bytes :=
+  match e_rec e with
+  | None => e_empty e
+  | Some (_, sz) => if beq (e_method e) lit_HEAD then [48] else itoa_N sz
+  end.
+Definition dispatch : list (bytes * how) := Eval vm_compute in
+  [ (bs "{method}", Fn e_method);
+    (bs "{scheme}", Fn (fun _ => bs "http"));
+    (bs "{hostname}", Oracle);
+    (bs "{host}", Fn e_host);
+    (bs "{hostonly}", Oracle);
+    (bs "{path}", Fn e_path);
+    (bs "{path_escaped}", Oracle);
+    (bs "{request_id}", Fn (fun _ => []));
+    (bs "{rewrite_path}", Fn e_curpath);
+    (bs "{rewrite_path_escaped}", Oracle);
+    (bs "{query}", Fn e_rawquery);
+    (bs "{query_escaped}", Oracle);
+    (bs "{fragment}", Fn (fun _ => []));
+    (bs "{proto}", Fn e_proto);
+    (bs "{remote}", Oracle);
+    (bs "{port}", Oracle);
+    (bs "{uri}", Oracle);
+    (bs "{uri_escaped}", Oracle);
+    (bs "{rewrite_uri}", Oracle);
+    (bs "{rewrite_uri_escaped}", Oracle);
+    (bs "{when}", Oracle);
+    (bs "{when_iso_local}", Oracle);
+    (bs "{when_iso}", Oracle);
+    (bs "{when_unix}", Oracle);
+    (bs "{when_unix_ms}", Oracle);
+    (bs "{file}", Fn (fun e => path_file (e_curpath e)));
+    (bs "{dir}", Fn (fun e => path_dir (e_curpath e)));
+    (bs "{request}", Oracle);
+    (bs "{request_body}", Oracle);
+    (bs "{mitm}", Fn (fun _ => bs "unknown"));
+    (bs "{status}", Fn f_status);
+    (bs "{size}", Fn f_size);
+    (bs "{latency}", Oracle);
+    (bs "{latency_ms}", Oracle);
+    (bs "{tls_protocol}", Fn e_empty);
+    (bs "{tls_cipher}", Fn e_empty);
+    (bs "{tls_client_escaped_cert}", Fn e_empty);
+    (bs "{tls_client_fingerprint}", Fn e_empty);
+    (bs "{tls_client_i_dn}", Fn e_empty);
+    (bs "{tls_client_raw_cert}", Fn e_empty);
+    (bs "{tls_client_s_dn}", Fn e_empty);
+    (bs "{tls_client_serial}", Fn e_empty);
+    (bs "{tls_client_v_end}", Fn e_empty);
+    (bs "{tls_client_v_remain}", Fn e_empty);
+    (bs "{tls_client_v_start}", Fn e_empty);
+    (bs "{server_port}", Oracle) ].
+Definition is_fn (h : how) : bool := match h with Fn _ => true | Oracle => false end.
+
+(* the regenerated case labels of getSubstitution's switch (Gen_C20.gen_c20_vocab) and the keys of
+   the dispatch table are the same set: a placeholder added to (or removed from) the code without
+   a model entry makes this false, and C20_vocabulary_is_dispatch_table no longer checks *)
+Definition vocab_matches_dispatch : bool :=
+  forallb (fun l => match assoc l dispatch with Some _ => true | None => false end) gen_c20_vocab &&
+  forallb (fun p => mem (fst p) gen_c20_vocab) dispatch.
+
+(* [tbl] = the dispatch table of the default vocabulary *)
+Definition get_subst_chk (tbl : list (bytes * how)) (e : renv) (key : bytes) : res bytes :=
   match assoc key (e_custom e) with
   | Some v => Ok v
   | None =>
     do k1 <- idx key 1;
     let dflt : res bytes :=
-      if mem key vocab then Ok (match assoc key (e_defaults e) with Some v => v | None => [] end)
-      else if prefixb lit_label_13 key then
-        do ns <- slice key 6 (length key - 1); Ok (label e ns)
-      else Ok (e_empty e) in
+      match assoc key tbl with
+      | Some (Fn f) => Ok (f e)
+      | Some Oracle => Ok (match assoc key (e_defaults e) with Some v => v | None => [] end)
+      | None =>
+        if prefixb lit_label_13 key then
+          do ns <- slice key 6 (length key - 1); Ok (label e ns)
+        else Ok (e_empty e)
+      end in
     if k1 =? 62 then                                  (* {>Header} *)
       do w <- key_mid key;
       match hdr_lookup w (e_reqh e) with Some v => Ok v | None => dflt end
@@ -178,10 +277,10 @@ Definition get_subst_chk (vocab : list bytes) (e : renv) (key : bytes) : res byt
     else dflt
   end.
 
-Definition get_subst (vocab : list bytes) (e : renv) (key : bytes) : bytes :=
-  match get_subst_chk vocab e key with Ok v => v | Panic => [] end.
+Definition get_subst (tbl : list (bytes * how)) (e : renv) (key : bytes) : bytes :=
+  match get_subst_chk tbl e key with Ok v => v | Panic => [] end.
 
-Definition expand_env (e : renv) (s : bytes) : res bytes := expand (get_subst gen_c20_vocab e) s.
+Definition expand_env (e : renv) (s : bytes) : res bytes := expand (get_subst dispatch e) s.
 
 (* keys that Replace can hand to getSubstitution: "{" … x "}" with x not a backslash *)
 Definition key_shape (key : bytes) : Prop := exists t x, key = t ++ [x; RB] /\ x <> BSL.
@@ -274,15 +373,34 @@ Definition spec_expand_ok (e : renv) (fmt obs : bytes) : bool :=
 (* ------------------------------------------------------------------------------------------ *)
 (* B. response writer, recorder, errors layer, log middleware, server                           *)
 (* ------------------------------------------------------------------------------------------ *)
+(* how a body-producing call of the handler reaches the writer it was given *)
+Inductive bkind :=
+| BWrite   (* w.Write / io.WriteString: ONE Write call with all the bytes, also when there are none *)
+| BCopy.   (* io.Copy / io.CopyN / ReadFrom-if-offered from a reader: the recorder offers no
+              ReadFrom (and no WriteString), so the bytes arrive as Write calls of at most
+              [copy_chunk] bytes, one per Read of the source — and no call at all when the
+              source has no bytes *)
 Inductive wop :=
 | OWH (code : Z)                      (* w.WriteHeader(code) *)
-| OW (len : N) (fail : option N)      (* w.Write(len bytes); fail = Some k: the underlying writer
-                                         reports k bytes and an error, delivering nothing *)
+| OB (k : bkind) (len : N) (srcerr : bool) (cut : option N)
+                                      (* a body-producing call that offers [len] bytes to the writer:
+                                         the buffer of a Write, or what the source of a copy yields
+                                         before it ends (srcerr = false) or FAILS (srcerr = true:
+                                         upstream reset, read error, short source of CopyN);
+                                         cut = Some j (j < len): the writer below accepts only the
+                                         first j of them and reports an error (connection closed
+                                         by the client) *)
 | OPanic.
+Notation OW len fail := (OB BWrite len false fail).
+(* io.Copy's buffer size *)
+Definition copy_chunk : N := 32768.
 
-(* the writer below the recorder: what the client gets *)
-Record uw := { u_status : option Z; u_size : N }.
-Definition uw0 : uw := {| u_status := None; u_size := 0 |}.
+(* the writer below the recorder.  u_size: body bytes it ACCEPTED for the client (what it reported
+   as written); u_lost: those of them that were accepted by a call which also reported an error;
+   u_dead (net/http only): the connection is gone — after the first failed write to the
+   connection every later Write fails with 0 bytes (bufio's sticky error) *)
+Record uw := { u_status : option Z; u_size : N; u_lost : N; u_dead : bool }.
+Definition uw0 : uw := {| u_status := None; u_size := 0; u_lost := 0; u_dead := false |}.
 (* w_nethttp: net/http's response (no body for 1xx/204/304, HEAD bodies accepted and dropped);
    otherwise the harness's scripted writer.  w_head: the request's method is HEAD *)
 Record wcfg := { w_nethttp : bool; w_head : bool }.
@@ -295,26 +413,60 @@ Definition body_forbidden (code : Z) : bool :=
 Definition uw_wh (u : uw) (code : Z) : uw :=
   match u_status u with
   | Some _ => u
-  | None => {| u_status := Some code; u_size := u_size u |}
+  | None => {| u_status := Some code; u_size := u_size u; u_lost := u_lost u; u_dead := u_dead u |}
   end.
 Definition client_status (u : uw) : Z := match u_status u with Some s => s | None => 200%Z end.
-Definition uw_write (c : wcfg) (u : uw) (len : N) (fail : option N) : uw * N * bool :=
+(* the writer takes [n] more bytes, [l] of them in a call that fails *)
+Definition uw_take (c : wcfg) (u : uw) (n l : N) (fails : bool) : uw :=
+  {| u_status := u_status u; u_size := u_size u + n; u_lost := u_lost u + l;
+     u_dead := u_dead u || (fails && w_nethttp c) |}.
+(* which of the special cases of the writer applies to a body call (after the implicit 200):
+   1 = the status forbids a body (Write fails, nothing accepted), 2 = HEAD (accepted and dropped),
+   3 = connection gone (Write fails, nothing accepted), 0 = none *)
+Definition uw_mode (c : wcfg) (u1 : uw) : N :=
+  if w_nethttp c && body_forbidden (client_status u1) then 1
+  else if w_nethttp c && w_head c then 2
+  else if u_dead u1 then 3 else 0.
+(* ONE Write call of [len] bytes: (writer after, n reported, error reported) *)
+Definition uw_write (c : wcfg) (u : uw) (len : N) (cut : option N) : uw * N * bool :=
   let u1 := uw_wh u 200 in
-  if w_nethttp c && body_forbidden (client_status u1) then (u1, 0, true)
-  else if w_nethttp c && w_head c then (u1, len, false)
-  else match fail with
-       | Some k => (u1, k, true)
-       | None => ({| u_status := u_status u1; u_size := u_size u1 + len |}, len, false)
+  let m := uw_mode c u1 in
+  if m =? 1 then (u1, 0, true)
+  else if m =? 2 then (u1, len, false)
+  else if m =? 3 then (u1, 0, true)
+  else match cut with
+       | Some k => (uw_take c u1 k k true, k, true)
+       | None => (uw_take c u1 len 0 false, len, false)
+       end.
+(* a copy of [len] > 0 bytes as the sequence of Write calls io.Copy makes (full chunks, then the
+   rest), in closed form: (writer after, bytes of the calls that reported NO error).  With
+   cut = Some j the calls before the one containing byte j succeed (j - j mod chunk bytes), that
+   one accepts j mod chunk bytes and fails, and the copy stops *)
+Definition uw_copy (c : wcfg) (u : uw) (len : N) (cut : option N) : uw * N :=
+  let u1 := uw_wh u 200 in
+  let m := uw_mode c u1 in
+  if m =? 1 then (u1, 0)
+  else if m =? 2 then (u1, len)
+  else if m =? 3 then (u1, 0)
+  else match cut with
+       | Some j => (uw_take c u1 j (j mod copy_chunk) true, j - j mod copy_chunk)
+       | None => (uw_take c u1 len 0 false, len)
        end.
 
 (* ResponseRecorder: like net/http it records the status that commits the response — the first
    WriteHeader with a final (non-informational) code, or the implicit 200 of the first Write;
-   later WriteHeader calls do not change it *)
+   later WriteHeader calls do not change it.  Write adds the reported count of a call to the
+   size only when the call reported no error *)
 Record rec := { r_status : Z; r_size : N; r_wrote : bool }.
 Definition rec0 : rec := {| r_status := 200; r_size := 0; r_wrote := false |}.
 (* 1xx other than 101: an informational header, which does not commit the response *)
 Definition informational (code : Z) : bool :=
   ((100 <=? code) && (code <=? 199) && negb (code =? 101))%Z.
+Definition rec_add (r : rec) (n : N) : rec :=
+  {| r_status := r_status r; r_size := r_size r + n; r_wrote := true |}.
+(* a body call makes no Write call at all: a copy from a source without bytes *)
+Definition no_call (k : bkind) (len : N) : bool :=
+  match k with BWrite => false | BCopy => len =? 0 end.
 
 Definition step (c : wcfg) (s : uw * rec) (o : wop) : uw * rec :=
   let '(u, r) := s in
@@ -322,9 +474,11 @@ Definition step (c : wcfg) (s : uw * rec) (o : wop) : uw * rec :=
   | OWH code => (uw_wh u code,
                  if negb (r_wrote r) && negb (informational code)
                  then {| r_status := code; r_size := r_size r; r_wrote := true |} else r)
-  | OW len fail =>
-      let '(u', n, err) := uw_write c u len fail in
-      (u', {| r_status := r_status r; r_size := if err then r_size r else r_size r + n; r_wrote := true |})
+  | OB BWrite len _ cut =>
+      let '(u', n, err) := uw_write c u len cut in (u', rec_add r (if err then 0 else n))
+  | OB BCopy len _ cut =>
+      if len =? 0 then s
+      else let '(u', counted) := uw_copy c u len cut in (u', rec_add r counted)
   | OPanic => s
   end.
 (* run a handler script; true = it panicked *)
@@ -364,6 +518,34 @@ Fixpoint tlook (tbl : list (Z * N)) (code : Z) : N :=
    own fallback ("%d %s"); tbl = length of the DefaultErrorFunc body per status *)
 Definition err_ops (tbl : list (Z * N)) (ek : N) (code : Z) : list wop :=
   [OWH code; OW (if ek =? 0 then tlook tbl code - 1 else tlook tbl code) None].
+(* every writer-side failure is all-or-nothing for the call it hits: a Write that fails accepted
+   nothing, a copy is cut at a chunk boundary.  (A source that fails is no writer-side failure.) *)
+Definition clean_cut (o : wop) : bool :=
+  match o with
+  | OB BWrite _ _ (Some j) => j =? 0
+  | OB BCopy _ _ (Some j) => j mod copy_chunk =? 0
+  | _ => true
+  end.
+Definition clean_cuts (ops : list wop) : bool := forallb clean_cut ops.
+(* no writer-side failure at all *)
+Definition uncut (ops : list wop) : bool :=
+  forallb (fun o => match o with OB _ _ _ (Some _) => false | _ => true end) ops.
+(* a writer cannot accept more than it is offered: a cut lies inside the call's bytes *)
+Definition cut_within (o : wop) : bool :=
+  match o with OB _ len _ (Some j) => j <? len | _ => true end.
+Definition cuts_within (ops : list wop) : bool := forallb cut_within ops.
+(* the most one call can lose: all of a Write, less than a chunk of a copy *)
+Definition op_loss_bound (o : wop) : N :=
+  match o with
+  | OB BWrite len _ _ => len
+  | OB BCopy len _ _ => N.min len copy_chunk
+  | _ => 0
+  end.
+Fixpoint max_loss (ops : list wop) : N :=
+  match ops with [] => 0 | o :: r => N.max (op_loss_bound o) (max_loss r) end.
+(* the same script with every source ending regularly *)
+Definition clear_srcerr (o : wop) : wop :=
+  match o with OB k len _ cut => OB k len false cut | _ => o end.
 
 Definition line := (nat * Z * N)%type.    (* (log directive / entry id, {status}, {size}) *)
 (* getSubstitution's {size}: the recorder's byte count, 0 when the request's method is HEAD *)
@@ -415,7 +597,7 @@ Fixpoint header_filter (wrote : bool) (ops : list wop) : list wop :=
   match ops with
   | [] => []
   | OWH code :: r => if wrote then header_filter true r else OWH code :: header_filter true r
-  | OW len fail :: r => OW len fail :: header_filter true r
+  | OB k len se cut :: r => OB k len se cut :: header_filter (wrote || negb (no_call k len)) r
   | OPanic :: r => OPanic :: header_filter wrote r
   end.
 (* the handler script as the log middleware's recorder sees it *)
@@ -423,13 +605,18 @@ Definition inner_flat (tbl : list (Z * N)) (haserr hdrw : bool) (ops : list wop)
   let '(ops1, ret1) := if haserr then errors_flat tbl ops ret else (ops, ret) in
   (if hdrw then header_filter false ops1 else ops1, ret1).
 
-Definition site_serve (c : wcfg) (cs : bool) (tbl : list (Z * N)) (haserr hdrw : bool)
-           (ds : list directive) (path : bytes) (ops : list wop) (ret : Z) : Z * N * list line :=
+Definition site_run (c : wcfg) (cs : bool) (tbl : list (Z * N)) (haserr hdrw : bool)
+           (ds : list directive) (path : bytes) (ops : list wop) (ret : Z) : uw * list line :=
   let '(ops1, ret1) := inner_flat tbl haserr hdrw ops ret in
   let '(u, ret2, p, lines) := log_serve c cs tbl 1 (parse_logs ds 0 []) path ops1 ret1 uw0 in
   let u' := if p then fst (fst (run c (u, rec0) (err_ops tbl 1 500)))
             else if (400 <=? ret2)%Z then fst (fst (run c (u, rec0) (err_ops tbl 1 ret2)))
             else u in
+  (u', lines).
+(* (status the client sees, body bytes the writer accepted for it, log lines) *)
+Definition site_serve (c : wcfg) (cs : bool) (tbl : list (Z * N)) (haserr hdrw : bool)
+           (ds : list directive) (path : bytes) (ops : list wop) (ret : Z) : Z * N * list line :=
+  let '(u', lines) := site_run c cs tbl haserr hdrw ds path ops ret in
   (client_status u', u_size u', lines).
 
 (* ---- shapes of handler scripts and configurations used by the theorems --------------------- *)
@@ -486,6 +673,87 @@ Fixpoint rule_counts_ok (cs : bool) (rs : list rule) (path : bytes) (ls : list l
   end.
 
 (* ------------------------------------------------------------------------------------------ *)
+(* C. concurrently served requests                                                               *)
+(* ------------------------------------------------------------------------------------------ *)
+(* What a request owns while it is being served: the customReplacements map of ITS replacer
+   (Server.ServeHTTP creates one per request — NewReplacer(r, nil, "") makes a fresh map — and
+   stores it in the request's context under ReplacerCtxKey; every later NewReplacer(r, ...) of
+   that request, the log middleware's included, takes the map from r.Context()), and the
+   connection's writer with the recorder the log middleware wrapped around it. *)
+Record preq := { q_cfg : wcfg; q_custom : list (bytes * bytes); q_w : uw * rec }.
+Definition preq0 (c : wcfg) : preq := {| q_cfg := c; q_custom := []; q_w := (uw0, rec0) |}.
+
+(* the server: a heap of such objects, and for every request being served the address its context
+   holds.  Nothing else is shared between requests (the rule table is fixed at setup). *)
+Record world := { wd_next : nat; wd_heap : list (nat * preq); wd_ctx : list (nat * nat) }.
+Definition world0 : world := {| wd_next := 0; wd_heap := []; wd_ctx := [] |}.
+
+Inductive rstep :=
+| RStart (c : wcfg)           (* the request arrives: Server.ServeHTTP allocates its replacer *)
+| RSet (key value : bytes)    (* some middleware of the chain: Replacer.Set(key, value), the replacer
+                                 reached through the request's context (or rr.Replacer, which the log
+                                 middleware made from that very context) *)
+| ROp (o : wop).              (* the handler acts on the writer it was given *)
+
+Fixpoint nlook {A} (k : nat) (l : list (nat * A)) : option A :=
+  match l with
+  | [] => None
+  | (k', v) :: r => if Nat.eqb k k' then Some v else nlook k r
+  end.
+Fixpoint nupd {A} (k : nat) (f : A -> A) (l : list (nat * A)) : list (nat * A) :=
+  match l with
+  | [] => []
+  | (k', v) :: r => if Nat.eqb k k' then (k', f v) :: r else (k', v) :: nupd k f r
+  end.
+
+(* what one step does to the state the request owns *)
+Definition preq_step (a : rstep) (p : preq) : preq :=
+  match a with
+  | RStart _ => p
+  | RSet k v => {| q_cfg := q_cfg p; q_custom := (LB :: k ++ [RB], v) :: q_custom p; q_w := q_w p |}
+  | ROp o => {| q_cfg := q_cfg p; q_custom := q_custom p; q_w := step (q_cfg p) (q_w p) o |}
+  end.
+
+(* one step of request [i] in the server *)
+Definition world_step (w : world) (ia : nat * rstep) : world :=
+  let '(i, a) := ia in
+  match nlook i (wd_ctx w), a with
+  | None, RStart c =>
+      {| wd_next := S (wd_next w); wd_heap := (wd_next w, preq0 c) :: wd_heap w;
+         wd_ctx := (i, wd_next w) :: wd_ctx w |}
+  | None, _ => w                                   (* no such request *)
+  | Some ad, _ =>
+      {| wd_next := wd_next w; wd_heap := nupd ad (preq_step a) (wd_heap w); wd_ctx := wd_ctx w |}
+  end.
+Definition world_run (sched : list (nat * rstep)) (w : world) : world := fold_left world_step sched w.
+
+(* the state of request i as the server holds it *)
+Definition view (w : world) (i : nat) : option preq :=
+  match nlook i (wd_ctx w) with Some ad => nlook ad (wd_heap w) | None => None end.
+
+(* the same request served ALONE: only its own steps, in their order *)
+Definition solo_step (s : option preq) (a : rstep) : option preq :=
+  match s, a with
+  | None, RStart c => Some (preq0 c)
+  | None, _ => None
+  | Some p, _ => Some (preq_step a p)
+  end.
+Definition solo (steps : list rstep) (s : option preq) : option preq := fold_left solo_step steps s.
+Definition proj (i : nat) (sched : list (nat * rstep)) : list rstep :=
+  map snd (filter (fun ia => Nat.eqb (fst ia) i) sched).
+
+(* the access-log line of a request: the format expanded with the request's own custom
+   placeholders in front of everything else, {status}/{size} from its own recorder *)
+Definition req_env (base : renv) (p : preq) : renv :=
+  {| e_custom := q_custom p; e_reqh := e_reqh base; e_resph := e_resph base; e_cookies := e_cookies base;
+     e_query := e_query base; e_osenv := e_osenv base; e_defaults := e_defaults base; e_host := e_host base;
+     e_empty := e_empty base; e_method := e_method base; e_path := e_path base; e_curpath := e_curpath base;
+     e_rawquery := e_rawquery base; e_proto := e_proto base;
+     e_rec := Some (r_status (snd (q_w p)), r_size (snd (q_w p))) |}.
+Definition req_line (fmt : bytes) (base : renv) (s : option preq) : option (res bytes) :=
+  match s with Some p => Some (expand_env (req_env base p) fmt) | None => None end.
+
+(* ------------------------------------------------------------------------------------------ *)
 (* correspondence cases and judge                                                              *)
 (* ------------------------------------------------------------------------------------------ *)
 Inductive case :=
@@ -505,7 +773,14 @@ Inductive case :=
    modelled = false: a gzip directive sits between log and the handler (sizes are those of the
    compressed stream, which the model does not predict: only the spec is judged) *)
 | CSite (modelled haserr hdrw head : bool) (ds : list directive) (path : bytes) (ops : list wop) (ret : Z)
-        (tbl : list (Z * N)) (obs_status : Z) (obs_size : N) (obs_lines : list line)
+        (tbl : list (Z * N))
+        (* aborted = false: the client read the response to its end; aborted = true: it closed the
+           connection (RST) after reading obs_size body bytes (obs_status = 0: not even the status
+           line) while the handler was still writing — then the [cut]s of [ops] are the counts
+           and errors the handler's Write calls REPORTED (only the kernel knows how much of the
+           socket buffer the client will never read), and acc is their sum *)
+        (aborted : bool) (acc : N)
+        (obs_status : Z) (obs_size : N) (obs_lines : list line)
         (tailfmt : bytes) (e : renv) (obs_tails : list bytes)
 (* requests issued concurrently *)
 | CBurst (cs : list case).
@@ -530,12 +805,23 @@ Fixpoint judge1 (c : case) : bool * bool :=
       let spec := rule_counts_ok cs rules path ol &&
                   (op || lines_exact (if (ous =? 0)%Z then 200%Z else ous) ousz ol) in
       (agree, spec)
-  | CSite modelled haserr hdrw head ds path ops ret tbl ost osz ol tf e otails =>
+  | CSite modelled haserr hdrw head ds path ops ret tbl aborted acc ost osz ol tf e otails =>
       let wc := {| w_nethttp := true; w_head := head |} in
       let '(st, sz, ls) := site_serve wc false tbl haserr hdrw ds path ops ret in
-      let agree := (negb modelled || ((st =? ost)%Z && (sz =? osz) && list_beq line_beq (sort_lines ls) (sort_lines ol))) &&
+      let view_ok := if aborted then ((ost =? 0) || (st =? ost))%Z && (osz <=? sz) && (acc <=? sz) && ((400 <=? ret)%Z || (sz =? acc))
+                     else (st =? ost)%Z && (sz =? osz) in
+      let agree := (negb modelled || (view_ok && list_beq line_beq (sort_lines ls) (sort_lines ol))) &&
                    forallb (fun t => match expand_env e tf with Ok o => beq o t | Panic => false end) otails in
-      let spec := counts_ok false ds 0 path ol && lines_exact ost osz ol &&
+      (* complete response: every line carries the status and the body length the client saw.
+         Aborted by the client: what the client received is a lower bound (it cannot have received
+         what the writer did not accept), the bytes the writer reported as accepted to the
+         handler are one too, and when the handler's calls are all there was (no error response
+         added by the server) {size} is exactly their sum *)
+      let exact := if aborted
+                   then forallb (fun l => ((ost =? 0) || (snd (fst l) =? ost))%Z && (osz <=? snd l) && (acc <=? snd l) &&
+                                          ((400 <=? ret)%Z || (snd l =? acc))) ol
+                   else lines_exact ost osz ol in
+      let spec := counts_ok false ds 0 path ol && exact &&
                   forallb (spec_expand_ok e tf) otails &&
                   Nat.eqb (length otails) (length ol) in
       (agree, spec)
